@@ -232,6 +232,12 @@ impl<E: ElementData> Stack<E> {
         }
     }
 
+    /// Verification hook: real capacity of the open-element stack, in bytes.
+    #[cfg(feature = "_verif_hooks")]
+    pub fn verif_capacity_bytes(&self) -> usize {
+        self.items.verif_capacity_bytes()
+    }
+
     /// Adds a child to child counters. Called before pushing the element to the stack.
     pub fn add_child(&mut self, name: &LocalName<'_>) {
         match self.items.last_mut() {
